@@ -33,6 +33,12 @@ Bit(x, i) == (x \div (2 ^ i)) % 2 = 1
 KAddNode == 1  KAddEdge == 2  KDelEdge == 3  KDelNode == 4  KSwap == 5
 KSetAttr == 6  KUndo == 7     KRedo == 8     KPaint == 9
 KEnable == 10  KDisable == 11
+\* 12 rebuild mode: a NEW SolutionTracks is constructed from a copy of the current graph (and array);
+\*    mode bits: 1 = track ids removed from the copy, 2 = lineage ids removed, 4 = through Tracks(...) and
+\*    SolutionTracks.from_tracks, 8 = position and area removed (segmentation only), 16 = constructed with
+\*    features = the old object's FeatureDict
+KRebuild == 12
+IsCtor(c) == c[1] = KRebuild
 \* primitive actions called directly (C01 names them): the action, then .inverse(), then .inverse() of that
 \*  21 AddNode n t tid lid   22 DeleteNode n   23 AddEdge u v   24 DeleteEdge u v
 \*  25 UpdateTrackIDs start newT newL   26 UpdateNodeSeg n strokeBits added   27 UpdateNodeAttrs n key val
@@ -62,7 +68,19 @@ AddNodeArgs(c) ==
 \* results are normalised to [s, ok, err, emit, ret]
 Norm(r) == [s |-> r.s, ok |-> r.ok, err |-> r.err, emit |-> r.emit, ret |-> r.ok]
 
-IsEdit(c) == c[1] \notin {KUndo, KRedo, KEnable, KDisable}
+IsEdit(c) == c[1] \notin {KUndo, KRedo, KEnable, KDisable, KRebuild}
+\* the harness's Driver re-registers the custom attributes and re-enables the features the suite enables on
+\* top of the core ones (with recomputation)
+CoreFeat == {"tid", "lid", "pos", "area"}
+Rebuild(S, m) ==
+    LET ks == (IF Bit(m, 0) THEN {"tid"} ELSE {}) \cup (IF Bit(m, 1) THEN {"lid"} ELSE {})
+              \cup (IF Bit(m, 3) /\ HasSeg THEN {"pos", "area"} ELSE {})
+        G  == Strip(S, ks)
+        C  == IF Bit(m, 4) THEN CtorFeatures(G) ELSE IF Bit(m, 2) THEN CtorFromTracks(G) ELSE CtorDirect(G)
+        C1 == [C EXCEPT !.reg = @ \cup (S.reg \cap {"cust", "ecust"})]
+        extra == (S.act \ CoreFeat) \cap Available
+        C2 == IF extra = {} THEN C1 ELSE Enable(C1, extra, FALSE, TRUE).s
+    IN [s |-> C2, ok |-> TRUE, err |-> "ok", emit |-> <<>>, ret |-> TRUE]
 \* raw result of a primitive call (ps = <<the applied primitive>>)
 PrimRaw(S, c) ==
     CASE c[1] = KPAddNode  -> PAddNode(S, c[2], [NoAttrs EXCEPT !.time = c[3], !.tid = c[4], !.lid = c[5],
@@ -97,6 +115,7 @@ StepOrd(S, c, ord) ==
       [] IsPrim(c)       -> PrimNorm(PrimRaw(S, c))
       [] c[1] = KEnable  -> NormSw(Enable(S, FeatSet(c[2]), Bit(c[2], 8), c[3] = 1))
       [] c[1] = KDisable -> NormSw(Disable(S, FeatSet(c[2]), Bit(c[2], 8)))
+      [] c[1] = KRebuild -> Rebuild(S, c[2])
       [] c[1] = KPaint   ->
             LET st == Stroke(c[2], c[3])
                 r  == Norm(UPaint(PaintedSeg(S, st, c[4]), S.seg, st, c[4], c[5] \div 2, c[5] % 2 = 1, ord))
@@ -282,15 +301,27 @@ Touched(x) == LET pn == {n \in Node : n \in NamedNodes(x.c)}
               IN pn \cup pt \cup po
 Untouched(x) == {n \in Present(x.pre) \cap Present(x.post) :
                     (Comp(x.pre, n) \cup Comp(x.post, n)) \cap Touched(x) = {}}
-P_C04(x) == (x.pf.forest /\ x.pf.tid /\ x.ok /\ ~IsSwitch(x.c) /\ ~IsPrim(x.c)) =>
+\* a constructed solution: same nodes, edges and times as the graph it was given
+SameGraph(A, B) == A.time = B.time /\ A.E = B.E
+\* "in a tracking solution - after construction": the constructed object manages track ids (nobody disabled
+\* the feature) and they label the segments, whether they were given, partly given or computed
+P_C04Ctor(x) == (IsCtor(x.c) /\ x.pf.forest) =>
+    (x.ok /\ SameGraph(x.pre, x.post) /\ "tid" \in x.post.act /\ TidOK(x.post))
+P_C05Ctor(x) == (IsCtor(x.c) /\ x.pf.forest) =>
+    (x.ok /\ SameGraph(x.pre, x.post) /\ "lid" \in x.post.act /\ LidOK(x.post))
+P_C04Edit(x) == (x.pf.forest /\ x.pf.tid /\ x.ok /\ ~IsSwitch(x.c) /\ ~IsPrim(x.c)) =>
     /\ TidOK(x.post)
     /\ (IsEdit(x.c) => \A n \in Untouched(x) : x.post.tid[n] = x.pre.tid[n])
-P_C05(x) == (x.pf.forest /\ x.pf.lid /\ LidOn(x.pre) /\ x.ok /\ ~IsSwitch(x.c) /\ ~IsPrim(x.c)) =>
+P_C04(x) == P_C04Ctor(x) /\ P_C04Edit(x)
+P_C05Edit(x) == (x.pf.forest /\ x.pf.lid /\ LidOn(x.pre) /\ x.ok /\ ~IsSwitch(x.c) /\ ~IsPrim(x.c)) =>
     /\ LidOK(x.post)
     /\ (IsEdit(x.c) => \A n \in Untouched(x) : x.post.lid[n] = x.pre.lid[n])
+P_C05(x) == P_C05Ctor(x) /\ P_C05Edit(x)
 
 \* --- C06 (state part; the query part needs the recorded answers) --------
-P_C06(x) == (x.pf.forest /\ x.pf.tid /\ x.pf.lid /\ x.pf.look /\ ~IsSwitch(x.c) /\ ~IsPrim(x.c)) => LookupOK(x.post)
+\* (the lookups of a constructed solution are read or computed from the graph it was given)
+P_C06(x) == /\ ((x.pf.forest /\ x.pf.tid /\ x.pf.lid /\ x.pf.look /\ ~IsSwitch(x.c) /\ ~IsPrim(x.c)) => LookupOK(x.post))
+            /\ ((IsCtor(x.c) /\ x.pf.forest /\ x.ok) => LookupOK(x.post))
 
 \* --- C10 ---------------------------------------------------------------
 \* value of feature k on the elements that survive the call (for "a disabled feature is not changed")
@@ -320,7 +351,7 @@ P_C10(x) ==
              /\ ("iou" \in K => IoUOK(x.post)) /\ (K \cap ShapeKeys # {} => ShapeOK(x.post))
     /\ (x.c[1] = KDisable /\ x.ok) => (FeatSet(x.c[2]) \cap x.post.act = {})
     \* a disabled feature is not changed by edits (nor by undo / redo)
-    /\ (~IsSwitch(x.c) /\ ~IsPrim(x.c)) => \A k \in Available \ x.pre.act : SameFeature(k, x.pre, x.post, x.c)
+    /\ (~IsSwitch(x.c) /\ ~IsPrim(x.c) /\ ~IsCtor(x.c)) => \A k \in Available \ x.pre.act : SameFeature(k, x.pre, x.post, x.c)
     \* managed features and time are protected from attribute updates, enabled or not
     /\ ManagedKey(x.c) => (~x.ok /\ FullEq(x.post, x.pre))
 
